@@ -106,6 +106,15 @@ func runHistory(t *rapid.T, cfg PropCfg, col *Collector) {
 		for _, v := range vs {
 			fail(v)
 		}
+		if st.Res.FaultHit != "" {
+			g.label("history:injected-fault-hit")
+			if st.Res.OK && cfg.ReportHalt {
+				fail(viol("C07/fault-hidden", "block %s: the injected failure of transfer %s was not reported, block processing returned nil", tfmt(st.Now), st.Res.FaultHit))
+			}
+			if !st.Res.OK {
+				return false // correctly reported: a real chain stops here
+			}
+		}
 		if st.Op.Kind == OpBlock && !st.Res.OK {
 			if cfg.ReportHalt {
 				fail(viol(blockFailSig(st.Res), "block processing failed at %s: %s\n%s", tfmt(st.Now), st.Res.Err, firstLines(st.Res.Panic, 30)))
@@ -212,6 +221,14 @@ func ReplayK(t *testing.T, cfg PropCfg, path string) {
 		st, vs := h.Exec(o, mon)
 		for _, v := range vs {
 			report(v)
+		}
+		if st.Res.FaultHit != "" {
+			if st.Res.OK && cfg.ReportHalt {
+				report(viol("C07/fault-hidden", "block %s: the injected failure of transfer %s was not reported", tfmt(st.Now), st.Res.FaultHit))
+			}
+			if !st.Res.OK {
+				break
+			}
 		}
 		if st.Op.Kind == OpBlock && !st.Res.OK {
 			if cfg.ReportHalt {
